@@ -167,6 +167,9 @@ pub fn run(ctx: &Ctx) -> i32 {
             if let Some(u) = unsorted(&reference) {
                 problems.push(("diagnostics-not-ascending".into(), u));
             }
+            // big projects (hundreds of members / imports) get fewer repetitions: the cost is per byte
+            let bytes: usize = files.iter().map(|f| f.1.len()).sum();
+            let runs = if bytes > 12_000 { (runs / 6).max(6) } else { runs };
             let mut r = 0usize;
             while r < runs {
                 // same parser again
